@@ -118,6 +118,11 @@ func pipePop(x interface{}, err, closedErr error) (int, bool, error) {
 // New builds a queue. capReq / capCtrl: 0 = unbounded for the pipe queues; for
 // the priority queue capReq is the capacity (0 admits nothing).
 func New(kind string, capReq, capCtrl int) *Q {
+	return NewWithPause(kind, capReq, capCtrl, time.Microsecond)
+}
+
+// NewWithPause is New with the retry pause the Add*Anyway entry points are given.
+func NewWithPause(kind string, capReq, capCtrl int, pause time.Duration) *Q {
 	switch kind {
 	case KindQ:
 		q := pq.NewQ(pq.WithSize(capReq))
@@ -125,7 +130,7 @@ func New(kind string, capReq, capCtrl int) *Q {
 			Add:      func(_, v int) Outcome { return pipeOutcome(q.AddReq(v), pq.ErrClosed, pq.ErrReqQFull) },
 			AddPrior: func(_, v int) Outcome { return pipeOutcome(q.AddPriorReq(v), pq.ErrClosed, pq.ErrReqQFull) },
 			AddAnyway: func(_, v int) Outcome {
-				return pipeOutcome(q.AddReqAnyway(v, time.Microsecond), pq.ErrClosed, pq.ErrReqQFull)
+				return pipeOutcome(q.AddReqAnyway(v, pause), pq.ErrClosed, pq.ErrReqQFull)
 			},
 			Pop:       func() (int, bool, error) { x, err := q.Pop(); return pipePop(x, err, pq.ErrClosed) },
 			PopAnyway: func() (int, bool, error) { x, err := q.PopAnyway(); return pipePop(x, err, pq.ErrClosed) },
@@ -137,7 +142,7 @@ func New(kind string, capReq, capCtrl int) *Q {
 			Add:      func(_, v int) Outcome { return pipeOutcome(q.Add(v), pasync.ErrClosed, pasync.ErrFull) },
 			AddPrior: func(_, v int) Outcome { return pipeOutcome(q.AddPrior(v), pasync.ErrClosed, pasync.ErrFull) },
 			AddAnyway: func(_, v int) Outcome {
-				return pipeOutcome(q.AddAnyway(v, time.Microsecond), pasync.ErrClosed, pasync.ErrFull)
+				return pipeOutcome(q.AddAnyway(v, pause), pasync.ErrClosed, pasync.ErrFull)
 			},
 			Pop:       func() (int, bool, error) { x, err := q.Pop(); return pipePop(x, err, pasync.ErrClosed) },
 			PopAnyway: func() (int, bool, error) { x, err := q.PopAnyway(); return pipePop(x, err, pasync.ErrClosed) },
@@ -150,7 +155,7 @@ func New(kind string, capReq, capCtrl int) *Q {
 			Add:      func(_, v int) Outcome { return pipeOutcome(q.AddReq(v), pmux.ErrClosed, pmux.ErrQFull) },
 			AddPrior: func(_, v int) Outcome { return pipeOutcome(q.AddPriorReq(v), pmux.ErrClosed, pmux.ErrQFull) },
 			AddAnyway: func(_, v int) Outcome {
-				return pipeOutcome(q.AddReqAnyway(v, time.Microsecond), pmux.ErrClosed, pmux.ErrQFull)
+				return pipeOutcome(q.AddReqAnyway(v, pause), pmux.ErrClosed, pmux.ErrQFull)
 			},
 			Pop:       func() (int, bool, error) { x, err := q.Pop(); return pipePop(x, err, pmux.ErrClosed) },
 			PopAnyway: func() (int, bool, error) { x, err := q.PopAnyway(); return pipePop(x, err, pmux.ErrClosed) },
@@ -168,9 +173,9 @@ func New(kind string, capReq, capCtrl int) *Q {
 			},
 			AddAnyway: func(lane, v int) Outcome {
 				if lane == LaneCtrl {
-					return pipeOutcome(q.AddCtrlAnyway(v, time.Microsecond), mq.ErrClosed, mq.ErrCtrlQFull)
+					return pipeOutcome(q.AddCtrlAnyway(v, pause), mq.ErrClosed, mq.ErrCtrlQFull)
 				}
-				return pipeOutcome(q.AddReqAnyway(v, time.Microsecond), mq.ErrClosed, mq.ErrReqQFull)
+				return pipeOutcome(q.AddReqAnyway(v, pause), mq.ErrClosed, mq.ErrReqQFull)
 			},
 			AddPrior: func(lane, v int) Outcome {
 				if lane == LaneCtrl {
